@@ -63,6 +63,14 @@ var (
 	dos   = spec.S("descendant-or-self", tNode)
 )
 
+var probe entry
+
+func build(ast spec.Expr) entry {
+	src := spec.Render(ast)
+	g := xsel.MustBuildExpr(src)
+	return entry{src: src, ast: ast, g: &g}
+}
+
 func Setup() {
 	menu = nil
 	child := func(preds ...spec.Expr) spec.Step { return spec.S("child", tAny, preds...) }
@@ -112,6 +120,14 @@ func Setup() {
 	add(spec.Rel(child(spec.Bin{Op: "=", L: spec.Rel(spec.S("attribute", tA)), R: vS})), "s") // *[@a=$s]
 	add(spec.Rel(child(spec.Rel(child(vK)))), "k")                                            // *[*[$k]]
 	add(spec.Rel(child(spec.Bin{Op: "=", L: spec.Fn("count", spec.Rel(spec.S("preceding-sibling", tAny))), R: vK})), "k")
+	// a reverse-axis step followed by a step that depends on sibling order
+	one := spec.Num{V: 1}
+	add(spec.Rel(spec.S("preceding-sibling", tAny, one), spec.S("following-sibling", tAny, one)), "")
+	add(spec.Rel(spec.S("preceding-sibling", tAny), spec.S("preceding-sibling", tAny, vK)), "k")
+	add(spec.Rel(spec.S("preceding-sibling", tNode, vK), spec.S("following-sibling", tNode, one)), "k")
+	add(spec.Rel(spec.S("preceding", tAny, one), spec.S("following-sibling", tAny, vK)), "k")
+	add(spec.Rel(spec.S("ancestor", tAny, one), spec.S("child", tAny, vK)), "k")
+	probe = build(spec.Rel(spec.S("parent", tNode), spec.S("child", tNode, one)))
 }
 
 func genOpts() hx.GenOpts {
@@ -193,6 +209,13 @@ func RunPredicates() {
 	nd.Reach("predicates")
 	want, wantFail := specEval(b.Doc, m.ast, ctx, bind)
 	c01.CompareResult(b, r, err, want, wantFail, m.src)
+	// the document is the same afterwards: sibling positions seen by a second
+	// query, and by the same query again, are those of the original order
+	r, err = xsel.Exec(cur, probe.g)
+	want2, fail2 := specEval(b.Doc, probe.ast, ctx, bind)
+	c01.CompareResult(b, r, err, want2, fail2, "afterwards:"+probe.src)
+	r, err = xsel.Exec(cur, m.g, settings...)
+	c01.CompareResult(b, r, err, want, wantFail, "again:"+m.src)
 }
 
 func specEval(d *spec.Doc, e spec.Expr, ctx int, b *spec.Bindings) (v spec.Val, failed bool) {
